@@ -104,6 +104,8 @@ Fixpoint parse16_go (cur : pstate) (ls : list string) : option template16 :=
               let body := rev acc in
               let it := if String.eqb w "PER_MSG" && (negb (String.eqb sfx "") || existsb (mentions "MSGID") body)
                         then MsgBlock ib ie sfx body      (* text after the end tag, or <<<MSGID>>> in the body *)
+                        else if String.eqb w "PER_EVENT" && existsb (fun l => mentions "SIGNATURE" l || mentions "SIGNATUREWITHDEFAULTS" l) body
+                        then EvBlock ib ie body          (* the event's signature (interface oracle) *)
                         else mk_block id ib ie body in
               if String.eqb sfx "" || String.eqb w "PER_MSG" then option_map (cons it) (parse16_go P0 r) else None
           | None => match chop_nl l with
@@ -179,5 +181,19 @@ Definition names_ok_shipped_cs (lines : list string) (tt : list EngineSM.row) (s
   match shipped16 dict0 lines with
   | Some (_, t) => let e := with_user a (elements_of (table_of tt) structs protos msgs) in
                    in_grammar07 t && names_ok t e && hooks_free e && user_lines_plain e t
+  | None => false
+  end.
+
+(* any shipped file inside the grammar: the reference text for a table, an interface, the signature oracle and a user-tag assignment; its admission *)
+Definition shipped_ref (lines : list string) (tt : list EngineSM.row) (structs protos msgs : list string)
+                       (sigs : list (string * (string * string))) (a : list (string * string)) : option string :=
+  match shipped16 dict0 lines with
+  | Some (_, t) => Some (ref16 (with_user a (with_evsigs sigs (elements_of (table_of tt) structs protos msgs))) t)
+  | None => None
+  end.
+Definition shipped_wf (lines : list string) (tt : list EngineSM.row) (structs protos msgs : list string)
+                      (sigs : list (string * (string * string))) (a : list (string * string)) : bool :=
+  match shipped16 dict0 lines with
+  | Some (_, t) => wf_elements16 t (with_user a (with_evsigs sigs (elements_of (table_of tt) structs protos msgs)))
   | None => false
   end.
